@@ -1,3 +1,5 @@
+//go:build p_c01 || p_all
+
 package main
 
 func init() {
